@@ -78,6 +78,8 @@ def make_element(kind, cell, gdim):
         return bu.element("RTCF", cell, 1)
     if kind == "RTCE1":
         return bu.element("RTCE", cell, 1)
+    if kind == "iso":
+        return bu.element("iso", cell, 1)
     if kind == "bubble":
         return bu.enriched_element([bu.element("Lagrange", cell, 1), bu.element("Bubble", cell, TDIM[cell] + 1)])
     if kind == "real":
@@ -403,6 +405,11 @@ def realise_tp(item):
         form = inner(ufl.Coefficient(V), v) * dx
     elif term == "withds":
         form = inner(u, v) * dx + inner(u, v) * ds
+    elif term == "vcoef":
+        # a blocked tensor-product coefficient (block size > 1): its dof index is block_size * flattened index + component
+        Vv = ufl.FunctionSpace(dom, tp(deg, (td,)))
+        fv = ufl.Coefficient(Vv)
+        form = fv[0] * inner(u, v) * dx + inner(fv[td - 1] * grad(u)[0], v) * dx
     elif term == "gllcoef":
         # arguments on the GLL-warped basis, coefficient on the equispaced basis of the same degree (irrational
         # bases: no exact oracle; used for the law T[sum_factorization=True] = T[sum_factorization=False])
